@@ -112,7 +112,7 @@ class Gen:
         self.table = {}
         self.feat = dict(bits=True, data=True, marker=True, regex=True, eos=True, ref=True, refsel=True, seq=True, opt=True,
                          move=True, em=True, clsopts=True, lambdas=True, offset_atoms=False, codegen_opts=False,
-                         begins_ref=True, defaults=True, regex_excl=False, shared_selector=False)
+                         begins_ref=True, defaults=True, regex_excl=False, shared_selector=False, generic_unpack=False, neg_moves=False)
         if features:
             self.feat.update(features)
 
@@ -310,6 +310,8 @@ class Gen:
                 pc['sbl'] = rng.choice([0, 2, 3, 5, 8])
         if self.feat['codegen_opts']:
             pc['gp'], pc['gu'], pc['vec'], pc['ann'] = (rng.random() < 0.5 for _ in range(4))
+        if self.feat['generic_unpack']:
+            pc['gu'] = False
         n = nfields or rng.choice([1, 2, 2, 3, 3, 4, 5, 6])
         ints = []
         i = 0
